@@ -282,12 +282,56 @@ def run(ck, ctx):
             ck.ob("R09.4", f"the {kind or 'unidentified'} grid is searched with the event's {kind or '?'}",
                   ok, n, fn, f"coordinate depends on lat: {bool(dl)}, on long: {bool(dn)}")
         # the two indices address (row, column) = (latitude, longitude)
+        def unclamp(a):
+            """(grid look-up, [upper bounds]) if a is a look-up, possibly kept inside the table by min / minimum / clip"""
+            bounds = []
+            for _ in range(3):
+                if a in ss:
+                    return a, bounds
+                if is_ext_call(a, "builtins.min", "numpy.minimum", "numpy.fmin") and len(a.args) == 3:
+                    x, y = a.args[1], a.args[2]
+                    inner = x if any(n_ in ss for n_ in walk([x])) else y
+                    bounds.append(y if inner is x else x)
+                    a = inner
+                elif is_ext_call(a, "numpy.clip") and len(a.args) == 4:
+                    bounds.append(a.args[3])
+                    a = a.args[1]
+                else:
+                    break
+            return (a, bounds) if a in ss else (None, [])
         subs = [n for n in walk([mv]) if n.op == "Subscript" and n.args[1].op == "Tuple" and
-                len(n.args[1].args) == 2 and all(a in ss for a in n.args[1].args)]
+                len(n.args[1].args) == 2 and all(unclamp(a)[0] is not None for a in n.args[1].args)]
+        ix = [unclamp(a) for a in subs[0].args[1].args] if subs else []
         ok_rc = bool(subs) and "latitude" in kinds and "longitude" in kinds and \
-            subs[0].args[1].args[0] is kinds["latitude"] and subs[0].args[1].args[1] is kinds["longitude"]
+            ix[0][0] is kinds["latitude"] and ix[1][0] is kinds["longitude"]
         ck.ob("R09.4", "the map is indexed [latitude index, longitude index]", ok_rc, subs[0] if subs else mv, fn,
               g.show(subs[0].args[1], 3) if subs else "no map[i, j] look-up found")
+        # an index kept inside the table is kept inside ITS axis: the bound is the last index of the grid it was found on
+        for k_, (look, bounds) in enumerate(ix):
+            own = call_args(look)[0][0] if look is not None else None
+            other = [call_args(n_)[0][0] for n_ in ss if n_ is not look]
+            for b in bounds:
+                cone_b = list(walk([b]))
+                has_own = any(x is own or g.vn(x) == g.vn(own) for x in cone_b)
+                has_other = any(any(x is o_ or g.vn(x) == g.vn(o_) for o_ in other) for x in cone_b)
+                okb = None
+                if has_own and not has_other:
+                    okb = True
+                elif has_other and not has_own:
+                    okb = False
+                elif b.op == "Const" and is_ext_call(own, "numpy.linspace"):
+                    gp, gk = call_args(own)
+                    cnt_ = gk.get("num", gp[2] if len(gp) > 2 else None)
+                    if cnt_ is not None and cnt_.op == "Const":
+                        okb = b.attr == cnt_.attr - 1
+                elif any(x.op == "Attr" and x.attr == "shape" for x in cone_b):
+                    shp = [x for x in cone_b if x.op == "Subscript" and x.args[0].op == "Attr" and
+                           x.args[0].attr == "shape" and x.args[1].op == "Const"]
+                    if shp:
+                        okb = shp[0].args[1].attr == k_
+                ck.ob("R09.4", f"map index {k_} is kept inside the table by the size of its own axis", okb, b, fn,
+                      g.show(b, 3), construct="altitude_from_pressure_map_v0.<locals>.f: index clamped by the other "
+                      "axis' size")
         # grid sizes follow the map's shape
         for n in ss:
             grid = call_args(n)[0][0]
